@@ -26,10 +26,24 @@ def use_repo() -> None:
         raise RuntimeError(f"liquid2 imported from {got}, expected {REPO_DIR}")
 
 
+def safe_repr(o: Any) -> str:
+    """repr() that cannot trip the interpreter's int -> str digit limit."""
+    try:
+        return repr(o)
+    except ValueError:
+        if isinstance(o, int):
+            return "int:" + hex(o)
+        if isinstance(o, dict):
+            return "{" + ", ".join(f"{safe_repr(k)}: {safe_repr(v)}" for k, v in o.items()) + "}"
+        if isinstance(o, (list, tuple)):
+            return "[" + ", ".join(safe_repr(x) for x in o) + "]"
+        return f"<{type(o).__name__}>"
+
+
 def h64(*parts: object) -> int:
     m = hashlib.blake2b(digest_size=8)
     for p in parts:
-        m.update(repr(p).encode("utf-8", "surrogatepass"))
+        m.update(safe_repr(p).encode("utf-8", "surrogatepass"))
         m.update(b"\x00")
     return int.from_bytes(m.digest(), "big")
 
@@ -48,7 +62,7 @@ def to_tagged(o: Any) -> Any:
         return o
     if isinstance(o, int):
         if abs(o) > 2**53:
-            return {"$int": str(o)}
+            return {"$int": hex(o)}
         return o
     if isinstance(o, float):
         if math.isnan(o) or math.isinf(o):
@@ -75,7 +89,7 @@ def from_tagged(o: Any, factories: dict[str, Any] | None = None) -> Any:
         if len(o) == 1:
             ((k, v),) = o.items()
             if k == "$int":
-                return int(v)
+                return int(v, 16) if v.lstrip("-").startswith("0x") else int(v)
             if k == "$float":
                 return float(v)
             if k == "$tuple":
@@ -111,7 +125,7 @@ def short(o: Any, n: int = 400) -> Any:
         return [short(v, n) for v in list(o)[:40]]
     if isinstance(o, (int, float, bool)) or o is None:
         return to_tagged(o)
-    return short(repr(o), n)
+    return short(safe_repr(o), n)
 
 
 # ---------------------------------------------------------------------------
